@@ -676,3 +676,17 @@ impl LuaIndex for LuaModuleIndex {
         self.module_nodes.insert(self.module_root_id, root_node);
     }
 }
+
+/// Verification hook (feature `verif-hooks`, off by default): entry count of every container
+/// of this index, so that tests can observe growth of indexed state.
+#[cfg(feature = "verif-hooks")]
+impl LuaModuleIndex {
+    pub fn verif_sizes(&self) -> Vec<(&'static str, usize)> {
+        vec![
+            ("module.module_nodes", self.module_nodes.len()),
+            ("module.file_module_map", self.file_module_map.len()),
+            ("module.module_name_to_file_ids", self.module_name_to_file_ids.len()),
+            ("module.module_name_to_file_ids.entries", self.module_name_to_file_ids.values().map(|m| m.len()).sum::<usize>()),
+        ]
+    }
+}
